@@ -100,7 +100,7 @@ PLANNED = {
     ),
     "C16": (
         "Lean 4 / Mathlib proofs over the reals that padding, batching and causal suffixes cannot influence a token's activations in the transformer model + numerical correspondence of the Float instance with tiny real Transformers and direct padded-vs-alone runs",
-        "Theorems (Props/C16.lean): masked keys contribute exactly zero; activations of real tokens are independent of pad content and width; rows independent; each mask-building call site yields the mask; causal prefix independence; evaluate's ranges. Tie: float64 Transformers (1–3 layers, all positional kinds, causal on/off) vs the model's Float instance to 1e-9; alone-vs-padded-batch directly on the implementation. One ModelWrapper answering 1100 times must keep giving its first answers. Half precision is not exercised (stated limitation). PARTIAL: floating-point noise and torch kernel selection are observed, not proved.",
+        "Theorems (Props/C16.lean): masked keys contribute exactly zero; activations of real tokens are independent of pad content and width; rows independent; each mask-building call site yields the mask; causal prefix independence; evaluate's ranges. Tie: float64 Transformers (1–3 layers, all positional kinds, causal on/off) vs the model's Float instance to 1e-9; alone-vs-padded-batch directly on the implementation. One ModelWrapper answering 1100 times must keep giving its first answers. Float16 models with an outlier token: rows that do not contain it, alone vs in the batch. PARTIAL: floating-point noise and torch kernel selection are observed, not proved.",
         T + "torch's nn.MultiheadAttention/LayerNorm semantics are modelled and tied numerically; no IEEE semantics (partial).",
         "5 C16, 7",
     ),
